@@ -129,6 +129,8 @@ func (srv *Server) handleChannel(ctx context.Context, c *ServerChannel) {
 
 	if err != nil {
 		log.Printf("server: establish: %v\n", err)
+		// The handshake did not complete: release the connection
+		_ = c.Close()
 		return
 	}
 
